@@ -236,6 +236,10 @@ def main():
     import c18_memo
     c18_memo.memo(run)
 
+    # 3b8. consolidate: the contiguity test on both branches (open finding C18-consolidate-unit-stride)
+    import c18_consolidate
+    c18_consolidate.consolidate_leaves(run)
+
     # 3c. batch-size spellings and key-aligned value lists (both branches, direct oracle)
     import c18_programs
     c18_programs.helper_duals(run)
